@@ -34,6 +34,10 @@ type enrichCase struct {
 	Flaky map[string]bool `json:"flaky,omitempty"`
 	// Twice: the document is enriched a second time a minute later; what was stored must be served without asking
 	Twice bool `json:"twice,omitempty"`
+	// Redact (with Twice): the first document is finished the way RunTraceroute finishes a request that skips
+	// private hops (Normalize, RemovePrivateHops), and the second enrichment is that of a new request: a fresh
+	// document with the same addresses. What the first request did to its own document must not show in the second.
+	Redact bool `json:"redact,omitempty"`
 }
 
 var enrichPool = []string{"", "v4:10.0.0.1", "v4:8.8.8.8", "map:8.8.8.8", "v4:198.18.0.1", "v6:2001:db8::1", "v6:2001:db8::2", "map:10.0.0.1", "v4:203.0.113.9", "v6:fd00::9"}
@@ -115,6 +119,16 @@ func checkC18Enrich(t *testing.T, c *enrichCase, rec *Recorder) []Diff {
 				}
 				mu.Unlock()
 				time.Sleep(time.Minute)
+				if c.Redact {
+					doc.Normalize()
+					doc.RemovePrivateHops()
+					doc = (&docCase{Runs: c.Runs}).build(nil)
+					for i := range doc.Traceroute.Runs {
+						if i < len(c.Dest) {
+							doc.Traceroute.Runs[i].Destination.IPAddress = ipOf(c.Dest[i])
+						}
+					}
+				}
 				doc.EnrichWithReverseDns()
 			}
 		})
@@ -197,7 +211,7 @@ func checkC18Enrich(t *testing.T, c *enrichCase, rec *Recorder) []Diff {
 }
 
 func TestC18Enrich(t *testing.T) {
-	rec := NewRecorder("C18", "C18Enrich", "rapid: hop/destination address multisets (duplicates, unanswered hops, 4-byte and IPv4-mapped 16-byte forms of one address, IPv6) x scripted resolver per address {names, empty list, error, resolver timeout error, slow (virtual delays => completion order), slower than the library's 5 s lookup deadline}; oracle: every reverse_dns list equals what the resolver returned for that same address, failures leave it empty and nothing else in the document changes; non-trivial = >= 2 distinct addresses with different outcomes and a duplicate")
+	rec := NewRecorder("C18", "C18Enrich", "rapid: hop/destination address multisets (duplicates, unanswered hops, 4-byte and IPv4-mapped 16-byte forms of one address, IPv6) x scripted resolver per address {names, empty list, error, resolver timeout error, slow (virtual delays => completion order), slower than the library's 5 s lookup deadline}; oracle: every reverse_dns list equals what the resolver returned for that same address, failures leave it empty and nothing else in the document changes; half of the cases enrich a second time a minute later (a quarter as a new request after the first document was finished with skip-private-hops): stored successes are served unchanged without asking, failures are asked again; non-trivial = >= 2 distinct addresses with different outcomes and a duplicate")
 	RunProp(t, rec, func(rt *rapid.T) *enrichCase {
 		c := &enrichCase{DNS: map[string]DNSScript{}}
 		nr := rapid.IntRange(1, 3).Draw(rt, "n_runs")
@@ -243,6 +257,7 @@ func TestC18Enrich(t *testing.T) {
 			}
 		}
 		c.Twice = rapid.Bool().Draw(rt, "twice")
+		c.Redact = c.Twice && rapid.Bool().Draw(rt, "redact")
 		return c
 	}, checkC18Enrich)
 }
